@@ -642,6 +642,9 @@ def parse_cli_stderr(text: str):
 
 
 _CFG_CACHE: dict = {}
+_HELD_MOP = None
+_HELD_KEY = None
+_HELD_FRESH = False
 
 
 def _exec_match(op):
@@ -668,10 +671,25 @@ def _exec_match(op):
     )
     if key is not None:
         _CFG_CACHE[key] = cfg
+    global _HELD_MOP, _HELD_KEY, _HELD_FRESH
+    fresh, _HELD_FRESH = _HELD_FRESH, False  # "fresh" = nothing at all happened since the held object last matched
+    okey = util.cjson({k: v for k, v in op.items() if k in ("rule", "input", "type", "ret", "search", "only_addr", "macros")})
     try:
         if op.get("compile_only"):
             # a complete *compilation* that is never matched (the object is dropped)
             value = "regex:" + str(MasterOfPuppets(match_config=cfg).regex_rule)
+        elif op.get("rematch") and fresh and _HELD_MOP is not None and _HELD_KEY == okey:
+            # the caller asks the object it still holds to match once more (nothing happened in between)
+            value = _HELD_MOP.perform_matching()
+            _HELD_FRESH = True
+        elif op.get("hold_object"):
+            # the loop idiom `mop = MasterOfPuppets(cfg); result = mop.perform_matching()`: the previous
+            # object is released by the re-binding, i.e. AFTER the new one was constructed
+            mop = MasterOfPuppets(match_config=cfg)
+            _HELD_MOP, _HELD_KEY = mop, okey
+            del mop
+            value = _HELD_MOP.perform_matching()
+            _HELD_FRESH = True
         else:
             value = MasterOfPuppets(match_config=cfg).perform_matching()
     except BaseException as e:  # noqa: BLE001 - every way of not returning is an outcome
@@ -729,6 +747,8 @@ def _exec_cli(op):
 
 
 def _exec_write(sim, op):
+    global _HELD_FRESH
+    _HELD_FRESH = False
     path = os.path.join(sim.root, op["path"])
     with sim.harness():
         os.makedirs(os.path.dirname(path), exist_ok=True)
